@@ -382,6 +382,28 @@ def narrow_variants(t):
     return t
 
 
+def narrow_deep(t, depth=0):
+    """narrow_variants applied to every sub-term (arguments of calls and aggregates, bases of projections)"""
+    if not isinstance(t, tuple) or depth > 12:
+        return t
+    k = t[0]
+    if k == "call":
+        t = (k, t[1], tuple(narrow_deep(a, depth + 1) for a in t[2])) + tuple(t[3:])
+    elif k == "agg":
+        t = (k, t[1], tuple(narrow_deep(a, depth + 1) for a in t[2]))
+    elif k in ("ref", "deref"):
+        t = simp((k, narrow_deep(t[1], depth + 1)))
+    elif k == "field":
+        t = simp((k, narrow_deep(t[1], depth + 1), t[2]))
+    elif k == "variant":
+        t = (k, narrow_deep(t[1], depth + 1), t[2])
+    elif k == "phi":
+        t = (k, tuple(narrow_deep(a, depth + 1) for a in t[1]))
+    elif k == "cast":
+        t = (k, t[1], narrow_deep(t[2], depth + 1)) + tuple(t[3:])
+    return narrow_variants(t)
+
+
 def alts(t):
     """alternatives of a phi (flattened), or [t]."""
     if t[0] == "phi":
